@@ -58,6 +58,13 @@ reg("C21", "fault_enumeration",
     "unchanged, exit status 7.",
     "Crash = kill immediately before the k-th write to the result pipe or at exit. Trusted: native/vsched.c.")
 
+reg("C22", "exploration",
+    "bounded-exhaustive enumeration of multi-file call-chain programs, 3-way differential (in-memory vs build-dir -j1 vs build-dir -j2) on the real binary",
+    "All call chains top->f1->..->sink of length <=2 (quick) / <=3 (thorough) x every placement into <=3 files x argument kinds x sink kinds x "
+    "pass-through forms x C/C++ (with conflicting struct definitions, unused and cross-file-used functions) are analysed in the three storage "
+    "modes; finding multisets (whole-program ids included) and exit status must be equal.",
+    "Small grammar; reference is the same binary's in-memory whole-program analysis. Known finding: staticFunction is never produced from stored summaries.")
+
 ALL = ["C%02d" % i for i in range(1, 37)]
 
 
